@@ -33,7 +33,9 @@ def svd_cases(draw, tier):
         A = np.zeros((m, n, 4))
         kind = "zero"
     R = draw(st.integers(1, k))
-    return {"A": np.ascontiguousarray(A), "kind": kind, "R": R}
+    # overall magnitude: the property is scale free, absolute thresholds in the code are not
+    e = draw(st.sampled_from([0, 0, 0, 0, -20, -13, -8, 8, 13]))
+    return {"A": np.ascontiguousarray(A * 10.0 ** e), "kind": kind, "R": R, "scale_exp": e}
 
 
 def classify(sref, m, n):
@@ -131,6 +133,26 @@ def check_svd(case):
             out.le(site + ":Eckart-Young (error not below optimum)", opt2 * (1 - 1e-9) - slack, err2,
                    f"err^2={err2:.6e} opt^2={opt2:.6e} R={R}", tags=rt)
     out.true("argument unchanged", ahash(Aq) == h0, "input modified")
+    if case.get("scale_exp"):
+        out.label("scaled")
+    # ---- same buffer, new contents: the result must depend on the argument's VALUE, not on its identity
+    A2 = 0.5 * A[::-1, ::-1].copy() + ref.conj(A) * 0.25
+    sref2 = ref.svals(A2)
+    Aq[...] = Q(A2)
+    ok, r = out.call("classical_qsvd_full(reused buffer)", L.qsvd.classical_qsvd_full, Aq)
+    if ok:
+        s2 = np.asarray(r[1], dtype=float)
+        s12 = float(sref2[0]) if k else 0.0
+        if out.true("classical_qsvd_full(reused buffer):shape", s2.shape == (k,), f"{s2.shape}"):
+            out.le("classical_qsvd_full(reused buffer):s equals true singular values of the NEW contents",
+                   float(np.max(np.abs(s2 - sref2))) if k else 0.0, C_SV * (m + n) * U_ * s12 + 1e-300 * (s12 == 0))
+    ok, r = out.call("classical_qsvd(reused buffer)", L.qsvd.classical_qsvd, Aq, R)
+    if ok:
+        s2 = np.asarray(r[1], dtype=float)
+        s12 = float(sref2[0]) if k else 0.0
+        if out.true("classical_qsvd(reused buffer):shape", s2.shape == (R,), f"{s2.shape}"):
+            out.le("classical_qsvd(reused buffer):s equals leading singular values of the NEW contents",
+                   float(np.max(np.abs(s2 - sref2[:R]))), C_SV * (m + n) * U_ * s12 + 1e-300 * (s12 == 0))
     out.nontrivial = k >= 2 and (c["rep"] or (k - c["rank"]) >= 2 or m != n)
     out.sample = {"shape": [m, n], "R": R, "kind": case["kind"], "rank": c["rank"], "repeated": c["rep"],
                   "sref": [float(x) for x in sref]}
